@@ -19,7 +19,7 @@ EXPLANATION = ("Kernel only: WriteCode hands the line's segment, start address a
 MANIFEST = dict(
     category="other",
     text="Contracts on the kernel: WriteCode (bookkeeping sees segment/address/length of the line before the program counter moves, same address the "
-         "code-file writer sees) and AddLineInfo (exactly one MAP record with the line's segment, file, line and address; earlier records kept). "
+         "code-file writer sees) and AddLineInfo (exactly one MAP record with the line's segment, file, line and address; earlier records kept), BookKeeping (usage map, section usage and debug records all get the LOAD address of the line) and GenerateProcessor (macro / repetition levels start from the calling line). "
          "The listing's address/byte columns (MakeList) and the symbol tables of listing, MAP and share file are named unverified.",
     note="Bounded: debug list <= 2 earlier records. Trusted: logging stubs.",
 )
